@@ -24,6 +24,8 @@ mod convex_cell_alternative;
 mod generator;
 pub mod half_space;
 pub mod integrals;
+#[cfg(feature = "verif_hooks")]
+pub mod verif_hooks;
 mod voronoi_cell;
 mod voronoi_face;
 
@@ -283,6 +285,8 @@ impl Voronoi {
 
         // Helper function to build a single cell
         let build = |(idx, faces)| {
+            #[cfg(feature = "verif_hooks")]
+            verif_hooks::jitter(idx);
             if mask.map_or(true, |mask| mask[idx]) {
                 let generator: &Generator = &generators[idx];
                 let loc = generator.loc();
@@ -580,6 +584,8 @@ impl VoronoiIntegrator<WithoutFaces> {
 
         // Helper function
         let build = |(idx, generator): (usize, &Generator)| {
+            #[cfg(feature = "verif_hooks")]
+            verif_hooks::jitter(idx);
             if cell_is_active[idx] {
                 let loc = generator.loc();
                 debug_assert_eq!(generator.id(), idx);
